@@ -9,7 +9,7 @@ R-K-4 clone / get_substructure: provenance of the four constructor arguments
 import itertools
 
 from ..program import AnalysisError, Inconclusive, ClassInfo, ExtClass
-from ..values import (Const, Sym, CRef, FRef, Bound, BoundB, Obj, Tup, App,
+from ..values import (ERef, Const, Sym, CRef, FRef, Bound, BoundB, Obj, Tup, App,
                       New, Raise, Coll, Part, walk)
 from ..interp import Interp, Hooks
 from ..galg import (GraphHooks, Evaluator, deep_snapshot, all_graphs,
@@ -396,6 +396,22 @@ def rule_k4(prog, adj):
                 len(rets), name), f.where())
         p, v = rets[0]
         snap = deep_snapshot(I, v, p)
+        if isinstance(v, App) and v.op == 'call' and \
+                isinstance(v.args[0], ERef) and \
+                v.args[0].name in ('copy.deepcopy', 'copy.copy') and \
+                list(v.args[1].items) == [K]:
+            deep = v.args[0].name.endswith('deepcopy')
+            r.fail(Finding(
+                PROP, 'R-K-4', f.where(), f.short(), 'copy-module:' + name,
+                'Kripke.%s is %s(self): %s' % (
+                    name, v.args[0].name,
+                    'the states (arbitrary hashable objects) are copied '
+                    'too, so the states of the result are not the states '
+                    'of the structure -- what is computed on a clone is not '
+                    'a set of states of K' if deep else
+                    'a shallow copy shares the adjacency and label sets '
+                    'with the original')))
+            continue
         # writes to the original
         muts = [e for e in p.log if e.kind in ('mutate', 'setattr',
                                                'setitem', 'delete')
